@@ -154,6 +154,7 @@ package diff
 //@ loop 2 invariant vs_globalinv_codeTable()
 
 //@ func CheckToFromPrimitiveType
+//@ requires vs_nonNilPtr(type1) && vs_nonNilPtr(type2)
 //@ requires vs_nonNilItem(type1) && vs_nonNilItem(type2)
 //@ ensures vs_noNone(diffs) ==> vs_noNone(result)
 //@ props C12 C13 C14
@@ -163,6 +164,7 @@ package diff
 //@ ensures isPrimitive(type1) != isPrimitive(type2) ==> len(result) == len(diffs)+1 && result[len(diffs)].Change == ChangedType
 
 //@ func CheckRefChange
+//@ requires vs_nonNilPtr(type1) && vs_nonNilPtr(type2)
 //@ requires vs_nonNilItem(type1) && vs_nonNilItem(type2)
 //@ ensures vs_noNone(diffs) ==> vs_noNone(diffReturn)
 //@ props C12 C13 C14
@@ -278,12 +280,14 @@ package diff
 //@ props C12
 //@ safety
 //@ pure
+//@ requires vs_nonNilPtr(item)
 //@ requires vs_nonNilItem(item)
 
 //@ func getSchemaTypeStr
 //@ props C12
 //@ safety
 //@ pure
+//@ requires vs_nonNilPtr(item)
 //@ requires vs_nonNilItem(item)
 
 //@ func formatTypeString
@@ -390,6 +394,7 @@ package diff
 //@ props C12 C13 C14
 //@ safety
 //@ modifies nothing
+//@ requires vs_nonNilPtr(schema)
 //@ requires vs_nonNilItem(schema)
 //@ ensures result != nil && vs_fresh(result) && result.Field == name
 
@@ -427,6 +432,8 @@ package diff
 //@ modifies nothing
 //@ ensures !fmtJSON ==> result1 == nil && (result2 != nil) == (sd.BreakingChangeCount() > 0)
 //@ ensures @C15 fmtJSON && result1 == nil ==> (result2 != nil) == (sd.BreakingChangeCount() > 0)
+//@ ensures @C15 !fmtJSON && len(sd) != sd.BreakingChangeCount() && sd.WarningChangeCount() > 0 ==> vs_called("reportChanges") && vs_callArg[Compatibility]("reportChanges", 1) == Warning
+//@ ensures @C15 !fmtJSON && len(sd) != sd.BreakingChangeCount() ==> vs_called("reportChanges")
 //@ ensures @C07 fmtJSON ==> vs_called("JSONMarshal") && vs_sortedDiffs(vs_callArg[interface{}]("JSONMarshal", 0))
 
 //@ func SpecDifference.String
@@ -523,12 +530,15 @@ package diff
 //@ requires sd != nil
 //@ loop 2 step vs_has(op2Responses, code1) ==> len(sd.Diffs) == old(len(sd.Diffs))
 //@ loop 2 step !vs_has(op2Responses, code1) ==> len(sd.Diffs) == old(len(sd.Diffs))+1 && sd.Diffs[len(sd.Diffs)-1].Code == DeletedResponse && sd.Diffs[len(sd.Diffs)-1].DifferenceLocation.Response == code1 && (code1 > 0 ==> sd.Diffs[len(sd.Diffs)-1].Compatibility == Breaking)
+//@ loop 4 step !vs_has(op1Headers, op2HeaderName) ==> len(sd.Diffs) == old(len(sd.Diffs))+1 && sd.Diffs[len(sd.Diffs)-1].Code == AddedResponseHeader && sd.Diffs[len(sd.Diffs)-1].DifferenceLocation.Response == code2
+//@ loop 4 step vs_has(op1Headers, op2HeaderName) ==> vs_called("CompareProps") && len(sd.Diffs) >= old(len(sd.Diffs))
 //@ loop 5 step vs_has(op2Response.ResponseProps.Headers, op1HeaderName) ==> len(sd.Diffs) == old(len(sd.Diffs))
 //@ loop 5 step !vs_has(op2Response.ResponseProps.Headers, op1HeaderName) ==> len(sd.Diffs) == old(len(sd.Diffs))+1 && sd.Diffs[len(sd.Diffs)-1].Code == DeletedResponseHeader && sd.Diffs[len(sd.Diffs)-1].DifferenceLocation.Response == code2 && (code2 > 0 ==> sd.Diffs[len(sd.Diffs)-1].Compatibility == Breaking)
 
 //@ func (*SpecAnalyser).analyseRequestParams
 //@ props C13 C14
 //@ requires sd != nil
+//@ loop 2 step vs_has(sd.urlMethods1, URLMethod) ==> vs_called("getParams") && vs_same(vs_callArg[[]spec.Parameter]("getParams", 0), op2.ParentPathItem.Parameters) && vs_same(vs_callArg[[]spec.Parameter]("getParams", 1), op2.Operation.Parameters) && vs_callArg[string]("getParams", 2) == paramLocation
 //@ loop 3 step vs_has(params2, paramName1) ==> len(sd.Diffs) == old(len(sd.Diffs))
 //@ loop 3 step !vs_has(params2, paramName1) ==> len(sd.Diffs) == old(len(sd.Diffs))+1 && sd.Diffs[len(sd.Diffs)-1].DifferenceLocation.Response == 0 && sd.Diffs[len(sd.Diffs)-1].Code == vs_deletedParamCode(param1.Required)
 //@ loop 4 step !vs_has(params1, paramName2) ==> len(sd.Diffs) == old(len(sd.Diffs))+1 && sd.Diffs[len(sd.Diffs)-1].DifferenceLocation.Response == 0 && sd.Diffs[len(sd.Diffs)-1].Code == vs_addedParamCode(param2.Required) && (param2.Required ==> sd.Diffs[len(sd.Diffs)-1].Compatibility == Breaking)
